@@ -670,6 +670,31 @@ func init() {
 			return nil
 		},
 		"(*sync.Pool).Get": func(i *interpreter, fr *frame, a []value) value {
+			// a pooled object if one was Put earlier on this path (as a single goroutine sees it),
+			// else New. The object stops being "released" (see Put).
+			if i.ps != nil {
+				// as the runtime does for one goroutine: a private slot (index 0) that is filled by the first
+				// Put and taken first by Get, then the shared stack (last in, first out)
+				if st := i.ps.pools[a[0].(*value)]; len(st) > 0 && (st[0] != nil || len(st) > 1) {
+					var x value
+					if st[0] != nil {
+						x, st[0] = st[0], nil
+					} else {
+						x = st[len(st)-1]
+						st = st[:len(st)-1]
+					}
+					i.ps.pools[a[0].(*value)] = st
+					un := map[*value]string{}
+					old := i.ps.frozen
+					i.ps.frozen = un
+					i.freezeWalk(x, "", map[interface{}]bool{})
+					i.ps.frozen = old
+					for c := range un {
+						delete(i.ps.released, c)
+					}
+					return x
+				}
+			}
 			// an empty pool: call New if set
 			p := (*a[0].(*value)).(structure)
 			for _, f := range p {
@@ -698,6 +723,19 @@ func init() {
 				i.ps.frozen = i.ps.released
 				i.freezeWalk(a[1], "object handed to sync.Pool.Put", map[interface{}]bool{})
 				i.ps.frozen = old
+				if i.ps.pools == nil {
+					i.ps.pools = map[*value][]value{}
+				}
+				st := i.ps.pools[a[0].(*value)]
+				if len(st) == 0 {
+					st = []value{nil}
+				}
+				if st[0] == nil {
+					st[0] = a[1]
+				} else {
+					st = append(st, a[1])
+				}
+				i.ps.pools[a[0].(*value)] = st
 			}
 			return nil
 		},
